@@ -73,19 +73,25 @@ def gen_case(rng):
     # with entries that are not numbers
     struct = sorted(v for v in used if rng.random() < 0.5) if rng.random() < 0.2 else []
     junk = rng.choice([["idle", "run"], [None], ["x"]]) if rng.random() < 0.15 else None
-    return {"kind": kind, "f": f, "n": n, "data": data, "order": order, "decl": used + surplus_decl, "struct": struct, "junk": junk}
+    period = rng.choice([0.5, 0.25]) if rng.random() < 0.15 and any(x[0] in ("tb1", "tb2") for x in F.subformulas(f)) else None
+    if kind.endswith("past") and any(x[0] == "t1" and x[1] in ("next", "snext") for x in F.subformulas(f)):
+        period = None           # pastify() removes next by one default unit, not one period: known finding F35 (C08)
+    return {"kind": kind, "f": f, "n": n, "data": data, "order": order, "decl": used + surplus_decl, "struct": struct, "junk": junk,
+            "period": period}
 
 
 def run_impl(case):
     struct = case.get("struct") or []
-    text = impl.struct_text("out = " + F.to_text(case["f"]), struct)
+    per = case.get("period")            # a sampling period that is a fraction of its unit: bounds written as multiples of it
+    text = impl.struct_text("out = " + F.to_text(case["f"], bound=(lambda k: repr(k * per)) if per else (lambda k: str(k))), struct)
     data, n, order = case["data"], case["n"], case["order"]
     mon = case["kind"].split("-")[1]
+    kw = {"sampling": (per, "s", 0.1)} if per else {}
 
     def go():
         from ..msgs import Msg
         if mon == "offd":
-            spec = impl.make_spec("offd", text, case["decl"], struct=struct)
+            spec = impl.make_spec("offd", text, case["decl"], struct=struct, **kw)
             spec.parse()
             ds = {"time": list(range(n))}
             for v in order:
@@ -95,7 +101,7 @@ def run_impl(case):
             res = [p[1] for p in spec.evaluate(ds)]
             spec.evaluate(ds)                  # the same object and data set once more: must not raise either
             return res
-        spec = impl.make_spec("ond", text, case["decl"], struct=struct)
+        spec = impl.make_spec("ond", text, case["decl"], struct=struct, **kw)
         spec.parse()
         if mon == "past":
             spec.pastify()
@@ -133,7 +139,7 @@ def model(cases):
 
 def check_case(ctx, case, m):
     text, out = run_impl(case)
-    rep = {"struct": case.get("struct") or [], "junk": case.get("junk"), "kind": case["kind"], "spec": text, "formula": F.to_proto(case["f"]), "n": case["n"], "data": case["data"],
+    rep = {"period": case.get("period"), "struct": case.get("struct") or [], "junk": case.get("junk"), "kind": case["kind"], "spec": text, "formula": F.to_proto(case["f"]), "n": case["n"], "data": case["data"],
            "order": case["order"], "declared": case["decl"], "impl": out, "model": m}
     ctx.nontrivial.add((case["kind"], text, case["n"], tuple(case["order"]), tuple(case["decl"])))
     if case["kind"].startswith("ok"):
@@ -213,7 +219,7 @@ def replay(ctx, obj):
         from .. import dense
         return dense.replay_wf(ctx, obj)
     c = {"kind": obj["kind"], "f": F.from_proto(obj["formula"]), "n": obj["n"], "order": obj["order"], "decl": obj["declared"],
-         "data": {k: [float(x) for x in v] for k, v in obj["data"].items()}, "struct": obj.get("struct") or [], "junk": obj.get("junk")}
+         "data": {k: [float(x) for x in v] for k, v in obj["data"].items()}, "struct": obj.get("struct") or [], "junk": obj.get("junk"), "period": obj.get("period")}
     m, = model([c])
     v, d = check_case(Ctx(ctx.id, ctx.tier, ctx.seed), c, m)
     return (v is None), (v.what if v else "outcome as required on the replayed case")
